@@ -305,6 +305,8 @@ func runOne(tr *drv.Tracer, sid int, sched []drv.Step, impl string) (hung bool) 
 		switch drv.Str(st["ev"]) {
 		case "Await":
 			hung = x.await(drv.Str(st["r"]), parseKey(st["k"]))
+		case "AwaitC":
+			hung = x.awaitCancelled(drv.Str(st["r"]), parseKey(st["k"]))
 		case "Store":
 			hung = x.store(st["set"].([]any))
 		case "CStore":
@@ -403,6 +405,28 @@ func (x *run) await(id string, k mkey) bool {
 		return false
 	}
 	x.start(id, k)
+	return x.settle()
+}
+
+// awaitCancelled: a reader that calls Await with a context that is already cancelled.  Logged as AwaitCall, Cancel, and
+// (by settle) the AwaitReturn - the context error or the stored value, the selects race.
+func (x *run) awaitCancelled(id string, k mkey) bool {
+	if _, ok := x.readers[id]; ok {
+		return false
+	}
+	rctx, rcancel := context.WithCancel(x.ctx)
+	r := &reader{id: id, key: k, cancel: rcancel, done: make(chan result, 1)}
+	x.readers[id] = r
+	x.order = append(x.order, id)
+	duty, pk := x.tb.duty(k.D), x.tb.pk(k.P)
+	x.tr.Emit(drv.Step{"ev": "AwaitCall", "r": id, "k": k.json()})
+	x.tr.Emit(drv.Step{"ev": "Cancel", "r": id})
+	r.cancelled = true
+	rcancel()
+	go func() {
+		d, err := x.db.Await(rctx, duty, pk, 0)
+		r.done <- result{d, err}
+	}()
 	return x.settle()
 }
 
